@@ -294,13 +294,24 @@ class Norm:
 
     def fact(self, f):
         k = f[0]
-        if k == 'is': return ('is', self(f[1]), f[2])
+        if k == 'is':
+            t = self(f[1])
+            # `map.range(..).next()` is None / Some on the untouched range of a namespace is the emptiness test of that namespace
+            # (outside `migrate`, whose conversion loop walks such ranges element by element)
+            if self.root_kind != 'migrate' and t[0] == 'iternext' and t[2] == 0 and t[1][0] == 'srange' and len(t[1]) == 3 and f[2] in ('None', 'Some'):
+                return ('val', ('storage_is_empty', t[1][1], t[1][2]), f[2] == 'None')
+            return ('is', t, f[2])
         if k == 'isnot': return ('isnot', self(f[1]), f[2])
         if k == 'val':
             t = self(f[1]); v = f[2]
             while t[0] == 'not' and isinstance(v, bool): t = t[1]; v = not v      # a normal form may introduce a negation (all(|e| e != y))
+            if t[0] == 'len' and v == 0 and not isinstance(v, bool): return ('val', ('is_empty', t[1]), True)      # slice pattern `[] =>` taken
             return ('val', t, v)
-        if k == 'nval': return ('nval', self(f[1]), f[2])
+        if k == 'nval':
+            t = self(f[1])
+            # slice pattern `[] =>` not taken: the length is not 0
+            if t[0] == 'len' and tuple(f[2]) == (0,): return ('val', ('is_empty', t[1]), False)
+            return ('nval', t, f[2])
         if k == 'or': return ('or', tuple(tuple(self.fact(x) for x in alt) for alt in f[1]), f[2] if len(f) > 2 else None)
         return f
 
